@@ -4,6 +4,8 @@
 mod verif_kani_proofs {
     use super::*;
     fn any_random<T: kani::Arbitrary>() -> T { kani::any() }
+    // rand::random::<InfoHash>() is legal in the crate (Distribution<InfoHash> for Standard): the stub must cover it
+    impl kani::Arbitrary for InfoHash { fn any() -> Self { InfoHash(kani::any()) } }
     /// bitwise reference CRC-32C (Castagnoli, reflected 0x82F63B78), written from RFC 3720 / BEP42
     fn crc32c_ref(data: &[u8]) -> u32 {
         let mut crc: u32 = !0;
